@@ -462,6 +462,7 @@ type SpecFun struct {
 	Reads  []string // hfun: struct types / memory classes whose heap arrays are implicit arguments
 	Axioms []*Clause
 	Manual map[string]*Clause // hlemma: instantiated only on request, as fname.label(args...)
+	Pkg    string             // package the definition was written in (names resolve there)
 }
 
 type GhostFun struct {
@@ -767,7 +768,7 @@ func (sp *Specs) ParseSpecFile(path string, pkg string) error {
 			if i < 0 || j < 0 {
 				return fmt.Errorf("%s:%d: bad spec header", path, l.n)
 			}
-			f := &SpecFun{Name: strings.TrimSpace(rest[:i])}
+			f := &SpecFun{Name: strings.TrimSpace(rest[:i]), Pkg: pkg}
 			for _, ps := range splitTop(rest[i+1 : j]) {
 				fs := strings.Fields(ps)
 				if len(fs) != 2 {
